@@ -11,7 +11,7 @@ Al(n) == [kind |-> "alias", n |-> n, pat |-> "-", owner |-> 0, uses |-> "-"]
 Decls(p1, o2, p3, a4, o5) ==
     Opt(p1 # "-", Rec(1, p1)) \o Opt(o2 # "-", Fn(2, IF o2 = "m" THEN 1 ELSE 0, "t3")) \o Opt(p3 # "-", Rec(3, p3))
     \o Opt(a4, Al(4)) \o Opt(o5 # "-", Fn(5, IF o5 = "m1" THEN 1 ELSE 3, "t4"))
-Pats == {"-", "T", "TS", "S", "A"} \cup (IF DupBodies THEN {"TSS"} ELSE {})
+Pats == {"-", "T", "TS", "S", "A", "TTS"} \cup (IF DupBodies THEN {"TSS"} ELSE {})
 Blk(i, j) == [ident |-> i, cf |-> 1 + ((i + j) % 2), pay |-> i * 10 + j]
 \* canonical block sequence: by identifier
 BlockSeq(B) == ByKey({[key |-> b.pay, v |-> b] : b \in B})
